@@ -1,12 +1,13 @@
 CONSTANTS
   Ctxs = {1, 2}
   Names = {"x"}
-  Boxes = {1, 2}
+  Boxes = {9, 11}
   Vals = {0, 1}
   MaxStack = 1
   MaxOps <- NoLimit
-  OpKinds = {"set", "del", "release", "push", "pop", "release_stack", "cleanup", "spawn"}
+  OpKinds = {"set", "del", "push", "pop", "proxy_iadd", "proxy_imul", "spawn"}
   Made0 <- AllMade
+  IopArgs <- SmallIop
 INIT Init
 NEXT Next
 VIEW ViewState
